@@ -87,14 +87,16 @@ def byte_to_char_conv(src: str):
 def utf8_columns(case, signature, detail):
     """D7: the only difference is CPython's UTF-8 byte columns vs this parser's character columns"""
     src = case["src"]
-    if src.isascii() or not signature.startswith("position:"):
+    if src.isascii() or not signature.startswith(("position:", "tree:position:")):
         return False
     mode = case.get("mode", "exec")
     c = cpy(src, mode)
     o = outcome(src, mode)
     if c.kind != "tree" or o.kind != "tree":
         return False
-    return astdiff(c.tree, o.tree, positions=True, conv=byte_to_char_conv(src)) is None
+    from .c10 import strip_empty_spec_constants  # same reference normalisation as C10's oracle
+
+    return astdiff(strip_empty_spec_constants(c.tree), strip_empty_spec_constants(o.tree), positions=True, conv=byte_to_char_conv(src)) is None
 
 
 def check(rec, case):
